@@ -160,48 +160,57 @@ def build_and_run(N, inp):
     setup()
     lb = _STATE['backend']
     shape = {'edges': {}, 'self': {}, 'fl': {}}
-    b = hb.Batch(backend=lb, name='c17')
-    jobs = [b.new_job(name=f'j{i}') for i in range(N)]
-    # phase 1: every job defines its outputs (a resource must be defined by its producer before another job's
-    # command may mention it)
-    for i, j in enumerate(jobs):
-        j.declare_resource_group(rg={'a': '{root}.a', 'b': '{root}.b'})
-        j.command(f'echo {i} > {j.ofile}; echo {i} > {j.rg.a}; echo {i} > {j.rg.b}')
-    aro = inp.ar_before()
-    shape['aro'] = aro
-    if aro:
-        # always_run set before the consuming commands: _interpolate_command then branches on the flag
+    obs = {'shape': shape, 'exc': None, 'build_failed': False}
+    try:
+        b = hb.Batch(backend=lb, name='c17')
+        jobs = [b.new_job(name=f'j{i}') for i in range(N)]
+        # phase 1: every job defines its outputs (a resource must be defined by its producer before another job's
+        # command may mention it)
+        for i, j in enumerate(jobs):
+            j.declare_resource_group(rg={'a': '{root}.a', 'b': '{root}.b'})
+            j.command(f'echo {i} > {j.ofile}; echo {i} > {j.rg.a}; echo {i} > {j.rg.b}')
+        aro = inp.ar_before()
+        shape['aro'] = aro
+        if aro:
+            # always_run set before the consuming commands: _interpolate_command then branches on the flag
+            for ji in range(N):
+                jobs[ji].always_run(inp.ar(ji))
+        # phase 2: dependencies, explicit and through consumed resources, in both directions
         for ji in range(N):
-            jobs[ji].always_run(inp.ar(ji))
-    # phase 2: dependencies, explicit and through consumed resources, in both directions
-    for ji in range(N):
-        j = jobs[ji]
-        kinds = {}
-        for pi in range(N):
-            if pi != ji:
-                kinds[pi] = inp.edge(pi, ji)
-                shape['edges'][(pi, ji)] = kinds[pi]
-        sl = inp.selfloop(ji)
-        shape['self'][ji] = sl
-        explicit = [jobs[pi] for pi, k in kinds.items() if k in (1, 3)]
-        if sl:
-            explicit.append(j)
-        if explicit:
-            j.depends_on(*explicit)
-        consumed = [pi for pi, k in kinds.items() if k in (2, 3)]
-        if consumed:
-            fl = inp.flavour(ji)
-            shape['fl'][ji] = fl
-            refs = []
-            for pi in consumed:
-                p = jobs[pi]
-                refs.append(str(p.ofile) if fl == 0 else (str(p.rg) if fl == 1 else str(p.rg.a)))
-            j.command('cat ' + ' '.join(refs))
-    if not aro:
-        for ji in range(N):
-            jobs[ji].always_run(inp.ar(ji))
+            j = jobs[ji]
+            kinds = {}
+            for pi in range(N):
+                if pi != ji:
+                    kinds[pi] = inp.edge(pi, ji)
+                    shape['edges'][(pi, ji)] = kinds[pi]
+            sl = inp.selfloop(ji)
+            shape['self'][ji] = sl
+            explicit = [jobs[pi] for pi, k in kinds.items() if k in (1, 3)]
+            if sl:
+                explicit.append(j)
+            if explicit:
+                j.depends_on(*explicit)
+            consumed = [pi for pi, k in kinds.items() if k in (2, 3)]
+            if consumed:
+                fl = inp.flavour(ji)
+                shape['fl'][ji] = fl
+                refs = []
+                for pi in consumed:
+                    p = jobs[pi]
+                    refs.append(str(p.ofile) if fl == 0 else (str(p.rg) if fl == 1 else str(p.rg.a)))
+                j.command('cat ' + ' '.join(refs))
+        if not aro:
+            for ji in range(N):
+                jobs[ji].always_run(inp.ar(ji))
+    except HarnessError:
+        raise
+    except Exception as e:  # the DSL rejected a legitimate call: an observation (unless the harness itself is broken)
+        if not shapesym.raised_inside(e, loader.REPO):
+            raise HarnessError(f'C17 builder bug: {type(e).__name__}: {e}')
+        obs.update(exc=(type(e).__name__, str(e)), build_failed=True, log=[], other_calls=0, ids=[None] * N, order=[],
+                   submitted=[False] * N)
+        return obs
     _FSP.reset(inp, _STATE['root'])
-    obs = {'shape': shape, 'exc': None}
     out = io.StringIO()
     try:
         with contextlib.redirect_stdout(out), warnings.catch_warnings():
@@ -211,12 +220,17 @@ def build_and_run(N, inp):
         obs['exc'] = ('BatchException', str(e))
     except _real_sp.CalledProcessError as e:
         obs['exc'] = ('CalledProcessError', str(e.cmd))
+    except HarnessError:
+        raise
+    except Exception as e:
+        if not shapesym.raised_inside(e, loader.REPO):
+            raise HarnessError(f'C17 harness bug during run: {type(e).__name__}: {e}')
+        obs['exc'] = (type(e).__name__, str(e))
     obs['log'] = list(_FSP.log)
     obs['other_calls'] = _FSP.other
     obs['ids'] = [jobs[i]._job_id for i in range(N)]
     obs['order'] = [int(j.name[1:]) for j in b._jobs]
     obs['submitted'] = [bool(jobs[i]._submitted) for i in range(N)]
-    obs['deps_real'] = [sorted(int(p.name[1:]) for p in jobs[i]._dependencies) for i in range(N)]
     _FSP.reset(None, None)
     return obs
 
@@ -253,10 +267,14 @@ def violation(N, obs, ar, fail):
     """z3 Bool over ar_j / fail_j: "this observation contradicts C17" (+ a dict naming the failed parts).
     `ar`, `fail`: lists of z3 Bool terms (BoolVal for concrete replays)."""
     shape = obs['shape']
-    par = parents_of(N, shape)
-    order = kahn(N, par)
     parts = {}
     T, F = z3.BoolVal(True), z3.BoolVal(False)
+    if obs.get('build_failed'):
+        # every call the builder makes is legitimate DSL usage (cycles are only rejected by run())
+        parts['pipeline_builds'] = F
+        return T, parts
+    par = parents_of(N, shape)
+    order = kahn(N, par)
     if order is None:
         ok = (obs['exc'] is not None and obs['exc'][0] == 'BatchException' and not obs['log']
               and obs['other_calls'] == 0 and not any(obs['submitted']))
